@@ -12,7 +12,7 @@ from .c12 import set_leaves, sym6, hooke, kind_of, virtual_obligation, NUMS
 
 def run(check):
     tier = check.tier
-    mtypes = ['double'] if tier == 'quick' else list(NUMS)
+    mtypes = list(NUMS)
     check.checker_cmd = 'clang++ -ast-dump=json (patched forward declarations) | phqv lower | phqv symex (REAL) -> z3 -T:120 qfnra-nlsat'
     check.assume('REAL: machine arithmetic treated as exact real arithmetic; the float/double/long double overloads are separate bodies proved against the same real formula')
     check.assume('positive viscosities: mu > 0, mu_b >= 0 (so 2 mu + 3 mu_b != 0)')
@@ -120,7 +120,8 @@ def adjudicate(check, t, ob):
            'solver_model': {k: str(v) for k, v in (ob.cex or {}).items()} if isinstance(ob.cex, dict) else None, 'text': ob.text}
     confirmed = False
     try:
-        mu, mub = 3.0, (5.0 if model.startswith('Compressible') else 0.0)
+        # values that are not exactly representable in any narrower type, so that a hidden narrowing shows
+        mu, mub = 0.3, (0.7 if model.startswith('Compressible') else 0.0)
         hdr = '#include <PhQ/ConstitutiveModel/%s.hpp>\n#include <cstdio>\nusing namespace PhQ;\n' % model
         mk_model = 'ConstitutiveModel::%s<%s> m(DynamicViscosity<%s>(%r, Unit::DynamicViscosity::PascalSecond)%s);' % (
             model, MT, MT, mu, (', BulkDynamicViscosity<%s>(%r, Unit::DynamicViscosity::PascalSecond)' % (MT, mub)) if model.startswith('Compressible') and nm != 'ctor1' else '')
@@ -153,7 +154,9 @@ def adjudicate(check, t, ob):
         else:
             rec['cpp'], rec['native_output'] = cpp, r.stdout
             vals = [float(x) for x in r.stdout.split()]
-            bad = ['got %r expected %r' % (g, w) for g, w in zip(vals, expect) if abs(g - w) > 1e-6 * max(1.0, abs(w))]
+            argT_ = re.search(r'<(.*)>', f.params[1][1][1][1]).group(1) if nm != 'ctor1' else MT
+            tol = 1e-5 if 'float' in (argT_, MT) else 1e-13       # the result has the precision of the narrower of model and argument type
+            bad = ['got %r expected %r (tolerance %g relative: the precision of the result type)' % (g, w, tol) for g, w in zip(vals, expect) if abs(g - w) > tol * max(1.0, abs(w))]
             if bad or len(vals) != len(expect):
                 confirmed = True
                 rec['mismatch'] = bad or ['output %s' % r.stdout]
